@@ -248,6 +248,14 @@ CASES = [
     ("m-c05-offset2line-low", "C05", "fire", "xdis/bytecode.py", "    return linestarts[high][1]\n", "    return linestarts[low][1]\n", "greatest-start-not-above-offset"),
     ("m-c05-offset2line-before-first", "C05", "fire", "xdis/bytecode.py", "    if len(linestarts) == 0 or offset < linestarts[0][0]:\n        return 0", "    if len(linestarts) == 0 or offset <= linestarts[0][0]:\n        return 0", "greatest-start-not-above-offset"),
     ("s-c05-offset2line-floor-mid", "C05", "silent", "xdis/bytecode.py", "    mid = (low + high + 1) // 2\n    while low <= high:", "    mid = (low + high) // 2\n    while low <= high:", ""),
+    ("m-c11-name-slot-stringified", "C11", "fire", "xdis/unmarshal.py", "            co_nlocals = len(co_varnames)\n            co_filename = self.r_object(bytes_for_s=bytes_for_s)",
+     "            co_nlocals = len(co_varnames)\n            co_filename = compat_str(self.r_object(bytes_for_s=bytes_for_s))", "object-to-text"),
+    ("m-c08-int2magic-10-only", "C08", "fire", "xdis/magics.py", "    if magic_int in (39170, 39171):\n        return struct.pack", "    if magic_int in (39170,):\n        return struct.pack", "header-bytes-are-the-table-key"),
+    ("m-c08-313-gets-312-table", "C08", "fire", "xdis/op_imports.py", "    \"3.13.0rc3\": opcode_313,", "    \"3.13.0rc3\": opcode_312,", "magic=3571"),
+    ("m-c09-31-extended-arg-144", "C09", "fire", "xdis/opcodes/opcode_31.py", "def_op(loc, \"EXTENDED_ARG\", 143)", "def_op(loc, \"EXTENDED_ARG\", 144)", "EXTENDED_ARG-number-shift"),
+    ("m-c04-labels-memoised", "C04", "fire", "xdis/wordcode.py", "def findlabels(code, opc):", "import functools\n\n\n@functools.lru_cache(maxsize=64)\ndef findlabels(code, opc):", "C18-R3:memoised-result"),
+    ("m-c02-table-cache-ignores-flavour", "C02", "fire", "xdis/op_imports.py", "    if variant is None:\n        try:\n            import platform",
+     "    if vers_str in _seen_tables:\n        return _seen_tables[vers_str]\n    _key = vers_str\n    if variant is None:\n        try:\n            import platform", ""),
 ]
 
 
